@@ -33,7 +33,7 @@ import (
 func init() { Register("C13", c13Parent, c13Child) }
 
 func c13Parent(r *ev.Run) {
-	r.Rule = "cache states over generated schemas (every column kind, incl. real/boolean map keys) x read paths (Row, Rows, RowByModel by uuid and by index, RowsByModels, RowsByCondition, client Get, List, Where.List, WhereAll.List, WhereCache.List, event handler arguments) x mutations of everything reachable from the returned model (scalars, slice elements, append within capacity, map insert/delete, write through pointer); write paths (Create, Update, ApplyCacheUpdate, Populate2) with mutation of the caller's model afterwards; Clone/Equal laws on run-time, hand-written and generated (serverdb.Database) models; a case is one probe; distinct = (path, column kinds of the model, mutation)"
+	r.Rule = "cache states over generated schemas (every column kind, incl. real/boolean map keys) x read paths (Row, Rows, RowByModel by uuid and by index, RowsByModels, RowsByCondition with no / one _uuid / indexed / general conditions, client Get, List, Where.List, WhereAll.List, WhereCache.List, event handler arguments) x mutations of everything reachable from the returned model (scalars, slice elements, append within capacity, map insert/delete, write through pointer); write paths (Create, Update, ApplyCacheUpdate, Populate2) with mutation of the caller's model afterwards; Clone/Equal laws on run-time, hand-written and generated (serverdb.Database) models; a case is one probe; distinct = (path, column kinds of the model, mutation)"
 	r.Assume("RowsShallow is exempt by its documentation and is used as the self-check of the detector (a mutation through it must show)")
 	r.RunBatches(ev.BatchOpts{N: r.N(8, 32)})
 }
@@ -216,6 +216,18 @@ func (e *c13env) readPaths() map[string]func() []model.Model {
 		},
 		"RowsByCondition": func() []model.Model {
 			ms, _ := rc.RowsByCondition([]ovsdb.Condition{{Column: "_uuid", Function: "!=", Value: ovsdb.UUID{GoUUID: "00000009-0000-4000-8000-000000000000"}}})
+			return toList(ms)
+		},
+		"RowsByCondition(no conditions)": func() []model.Model {
+			ms, _ := rc.RowsByCondition(nil)
+			return toList(ms)
+		},
+		"RowsByCondition(empty list)": func() []model.Model {
+			ms, _ := rc.RowsByCondition([]ovsdb.Condition{})
+			return toList(ms)
+		},
+		"RowsByCondition(_uuid ==)": func() []model.Model {
+			ms, _ := rc.RowsByCondition([]ovsdb.Condition{{Column: "_uuid", Function: "==", Value: ovsdb.UUID{GoUUID: anyUUID()}}})
 			return toList(ms)
 		},
 		"RowsByCondition(index)": func() []model.Model {
